@@ -120,6 +120,33 @@ theorem refusal_leaves_spectrum (s : Spectrum) :
   · intro tol e; simp only [trim]; repeat' split
     all_goals simp
 
+/-- … the same for pad; and crop: when crop raises (IndexError on an empty or emptied grid) the spectrum it leaves is the
+input cropped at the lower limit — in particular still a selection of the input's samples (`crop_retained_samples_unaltered`)
+— and crop on an already empty spectrum leaves it as it was -/
+theorem refusal_leaves_spectrum_pad_crop (s : Spectrum) :
+    (∀ e0 e1 sm ed vl vr e, (pad e0 e1 sm ed vl vr s).2 = some e → (pad e0 e1 sm ed vl vr s).1 = s) ∧
+    (∀ lo hi, s.wave = [] → crop lo hi s = (s, some .indexError)) ∧
+    (∀ lo hi e, (crop lo hi s).2 = some e → e = .indexError ∧ (crop lo hi s).1.wave = []) := by
+  refine ⟨?_, ?_, ?_⟩
+  · intro e0 e1 sm ed vl vr e; simp only [pad]; repeat' split
+    all_goals simp
+  · intro lo hi h; simp [crop, h]
+  · intro lo hi e
+    rw [crop_eq_stages]
+    cases hw : s.wave.head? with
+    | none =>
+      have : s.wave = [] := by simpa using hw
+      simp [this]; exact fun h => h.symm
+    | some w0 =>
+      simp only [cropStage2]
+      cases hl : (cropStage1 lo w0 s).wave.getLast? with
+      | none =>
+        have : (cropStage1 lo w0 s).wave = [] := by simpa using hl
+        simp [this]; exact fun h => h.symm
+      | some wl =>
+        simp only []
+        split <;> simp
+
 
 /-! ### integration -/
 
